@@ -171,7 +171,7 @@ func C11(c *fw.Ctx) {
 	c.SetExhaustive(true)
 	nRandom := c.Pick(20000, 400000)
 	c.Rule(fmt.Sprintf("tokens = %d (36 directive forms: 31 kinds, the five HTTP methods with and without a path; each implicit or followed by '(' "+
-		"except Description; plus ')' and a '(' on a line of its own, which belongs to the directive before it if that has none yet and is an " +
+		"except Description; plus ')' and a '(' on a line of its own, which belongs to the directive before it if that has none yet and is an "+
 		"error otherwise); ALL sequences of length <= 3 (%d) and %d seeded random sequences of length 4-8; each kind has one "+
 		"lexically valid canonical rendering so that the first error, if any, is the context error; oracle = reference automaton "+
 		"(harness/internal/ref/context.go); distinct = distinct token sequences; non-trivial = every sequence (each decides one verdict)",
